@@ -491,7 +491,312 @@ pub fn run_a(ctx: &Ctx) {
 pub fn run(ctx: &Ctx) {
     run_a(ctx);
     *ctx.exhaustive.lock().unwrap() = Some(true);
+    run_b(ctx);
+    ctx.assume("part B: standard signals coalesce while pending; a delivery is a raise_signal on the shell's virtual process from outside (as the kernel would), between scheduler steps and at preemption points");
     ctx.assume("merge model: disposition = max(internal need, user action) with default < ignore < catch; subshell entry and the ignored-on-entry lock as in POSIX 2.12 and the doc comments of trap.rs");
 }
 
-pub const RULE: &str = "Part A: breadth-first enumeration (de-duplicated on the model state) of all TrapSet histories over {set_action on CHLD/INT/TSTP/USR1 (default, ignore, command; with and without override), set_action on KILL and STOP, EXIT trap, enable/disable each internal disposition group, enter_subshell with each (ignore_sigint_sigquit, keep_stoppers) pair} x 4 sets of signals ignored on entry, each history re-executed on a fresh Rc<Concurrent<VirtualSystem>>; after every operation the disposition held by the virtual kernel for 10 signals and the listed trap action are compared with the merge model, and the result of set_action with the documented outcome. evaluations = histories executed; distinct_nontrivial = distinct model states reached";
+pub const RULE: &str = "Part B: generated scripts whose main-shell commands are all probes (plus if/for/case/groups/functions/subshells/substitutions/pipelines/and-or), with `trap 'probe T; (probe X); probe T2' USR1`; SIGUSR1 is delivered to the shell process from outside at every scheduler step of the FIFO run (one delivery per run), at random pairs of steps, and randomly (3-60% per step) under random preempting schedules; an event-log checker verifies: one trap run per delivery window (pending deliveries coalesce), no run without delivery, the action starts with the $? of the last command, is not re-entered, leaves $? and the control flow of the script unchanged, and runs before a second main-shell command completes. Part A: breadth-first enumeration (de-duplicated on the model state) of all TrapSet histories over {set_action on CHLD/INT/TSTP/USR1 (default, ignore, command; with and without override), set_action on KILL and STOP, EXIT trap, enable/disable each internal disposition group, enter_subshell with each (ignore_sigint_sigquit, keep_stoppers) pair} x 4 sets of signals ignored on entry, each history re-executed on a fresh Rc<Concurrent<VirtualSystem>>; after every operation the disposition held by the virtual kernel for 10 signals and the listed trap action are compared with the merge model, and the result of set_action with the documented outcome. evaluations = histories executed; distinct_nontrivial = distinct model states reached";
+
+// =================================================================== part B
+
+use crate::sched::Strategy;
+use crate::util::Rng;
+use crate::vsh::{self, Event};
+
+const TRAP_LINE: &str = "trap 'probe -s 9 T; (probe -s 3 X); probe -s 8 T2' USR1\n";
+
+/// Generate a script whose main-shell commands are all probes (so `$?` is deterministic at every
+/// point), with compound commands, functions, subshells, substitutions, pipelines and async+wait.
+fn gen_script(rng: &mut Rng) -> String {
+    let mut next = 0u32;
+    let mut p = |rng: &mut Rng| {
+        next += 1;
+        format!("probe -s {} k{next}", rng.pick(&[0, 0, 1, 2, 5]))
+    };
+    let mut s = String::from(TRAP_LINE);
+    s.push_str("f() { probe -s 1 kf1; probe -s 0 kf2; }\n");
+    let n = rng.range(4, 12);
+    for _ in 0..n {
+        let line = match rng.below(12) {
+            0 | 1 | 2 => p(rng),
+            3 => format!("if {}; then {}; {}; else {}; fi", p(rng), p(rng), p(rng), p(rng)),
+            4 => format!("for v in a b; do {}; {}; done", p(rng), p(rng)),
+            5 => format!("{{ {}; {}; }}", p(rng), p(rng)),
+            6 => "f".to_string(),
+            // (every line ends with a probe run by the main shell itself, so that the $? a trap
+            // action must see is always what the next main-shell probe sees without signals)
+            7 => format!("( {}; {} ); {}", p(rng), p(rng), p(rng)),
+            8 => format!("x=$({}; {}); {}", p(rng), p(rng), p(rng)),
+            9 => format!("{} | {}; {}", p(rng), p(rng), p(rng)),
+            10 => format!("{} && {} || {}", p(rng), p(rng), p(rng)),
+            _ => format!("case a in a) {}; {};; esac", p(rng), p(rng)),
+        };
+        s.push_str(&line);
+        s.push('\n');
+    }
+    // tail: commands during which no signal is injected, so that every delivery gets its boundary
+    s.push_str("probe -s 0 kz1\nprobe -s 0 kz2\nprobe -s 0 kz3\n");
+    s
+}
+
+#[derive(Clone, Copy, Debug)]
+enum Inject {
+    None,
+    /// exactly at these scheduler steps (up to two)
+    At(u64, Option<u64>),
+    /// with probability pct at every step
+    Random(u32, u64),
+}
+
+fn run_with_injection(script: &str, strategy: Strategy, inj: Inject) -> vsh::VOut {
+    let mut cfg = vsh::VCfg::script(script);
+    cfg.strategy = strategy;
+    cfg.extra = vsh::v_probes();
+    let mut rng = Rng::new(match inj {
+        Inject::Random(_, s) => s,
+        _ => 0,
+    });
+    let shell = yash_env::job::Pid(2);
+    cfg.on_step = Some(Box::new(move |state, step| {
+        let fire = match inj {
+            Inject::None => false,
+            Inject::At(a, b) => step == a || Some(step) == b,
+            Inject::Random(p, _) => rng.chance(p),
+        };
+        if !fire {
+            return;
+        }
+        let mut st = state.borrow_mut();
+        // stop injecting once the tail of the script has started
+        let in_tail = vsh::EVENTS.with(|v| v.borrow().iter().any(|e| e.args.first().map(|s| s.as_str()) == Some("kz1")));
+        if in_tail {
+            return;
+        }
+        let Some(p) = st.processes.get_mut(&shell) else { return };
+        if !p.state().is_alive() || p.disposition(SIGUSR1) != Disposition::Catch {
+            return;
+        }
+        let _ = p.raise_signal(SIGUSR1);
+        drop(st);
+        vsh::push_event(Event {
+            pid: 0,
+            kind: "inject",
+            args: vec![],
+            status: 0,
+        });
+    }));
+    vsh::run_v(cfg)
+}
+
+fn main_ordinary(events: &[Event]) -> Vec<(String, i32)> {
+    events
+        .iter()
+        .filter(|e| e.pid == 2 && e.kind == "probe")
+        .map(|e| (e.args.first().cloned().unwrap_or_default(), e.status))
+        .filter(|(id, _)| id != "T" && id != "T2")
+        .collect()
+}
+
+/// The event-log checker. Returns Err(signature, explanation).
+fn check_timeline(base: &[(String, i32)], base_all: &[Event], out: &vsh::VOut) -> Result<u32, (String, String)> {
+    if out.end != vsh::End::Done {
+        return Err(("no-termination".into(), format!("{:?}", out.end)));
+    }
+    let mut pending = false;
+    let mut in_trap = false;
+    let mut ord_since = 0;
+    let mut idx = 0usize;
+    let mut traps_run = 0u32;
+    for (pos, e) in out.events.iter().enumerate() {
+        if e.kind == "inject" {
+            if !pending {
+                pending = true;
+                ord_since = 0;
+            }
+            continue;
+        }
+        if e.pid != 2 || e.kind != "probe" {
+            continue;
+        }
+        let id = e.args.first().map(|s| s.as_str()).unwrap_or("");
+        match id {
+            "T" => {
+                if in_trap {
+                    return Err(("re-entrant trap".into(), format!("event #{pos}: the trap action started while another one was running")));
+                }
+                if !pending {
+                    return Err(("trap without delivery".into(), format!("event #{pos}: the trap action ran although no signal was delivered since the previous run")));
+                }
+                pending = false;
+                in_trap = true;
+                traps_run += 1;
+                // $? at the start of the action = status of the last command = what the next
+                // ordinary command would see
+                if let Some((_, st)) = base.get(idx) {
+                    // ... or, when the next command runs in a child process (subshell, pipeline,
+                    // substitution), what the first probe of that command sees: the trap may run
+                    // before or after that command
+                    let mut ok = e.status == *st;
+                    if !ok {
+                        // position in the baseline (all processes) right after the last main-shell
+                        // probe that has run so far
+                        let mut seen = 0usize;
+                        let mut after = 0usize;
+                        for (k, b) in base_all.iter().enumerate() {
+                            if seen == idx {
+                                after = k;
+                                break;
+                            }
+                            if b.pid == 2 && b.kind == "probe" {
+                                seen += 1;
+                            }
+                            after = k + 1;
+                        }
+                        if let Some(nxt) = base_all.get(after) {
+                            ok = nxt.pid != 2 && nxt.status == e.status;
+                        }
+                    }
+                    if !ok {
+                        return Err((
+                            "wrong $? in trap".into(),
+                            format!("event #{pos}: trap action started with $?={}, the last command left {st}", e.status),
+                        ));
+                    }
+                }
+            }
+            "T2" => {
+                if !in_trap {
+                    return Err(("trap tail without head".into(), format!("event #{pos}")));
+                }
+                if e.status != 3 {
+                    return Err(("wrong $? inside trap".into(), format!("event #{pos}: second command of the action saw $?={}, the subshell before it returned 3", e.status)));
+                }
+                in_trap = false;
+            }
+            _ => {
+                if in_trap {
+                    return Err(("ordinary command ran inside the trap action".into(), format!("event #{pos}: {id}")));
+                }
+                match base.get(idx) {
+                    Some((bid, bst)) if bid == id && *bst == e.status => {}
+                    Some((bid, bst)) if bid == id => {
+                        return Err((
+                            "$? clobbered".into(),
+                            format!("event #{pos}: {id} saw $?={}, without signals it sees {bst}", e.status),
+                        ));
+                    }
+                    other => {
+                        return Err((
+                            "control flow changed".into(),
+                            format!("event #{pos}: {id} ran where {:?} runs without signals", other.map(|x| &x.0)),
+                        ));
+                    }
+                }
+                idx += 1;
+                if pending {
+                    ord_since += 1;
+                    if ord_since > 1 {
+                        return Err((
+                            "trap late".into(),
+                            format!("event #{pos}: two commands of the main shell completed after a delivery before the trap action ran"),
+                        ));
+                    }
+                }
+            }
+        }
+    }
+    if idx != base.len() {
+        return Err(("control flow changed".into(), format!("only {idx} of {} ordinary commands ran", base.len())));
+    }
+    if pending {
+        return Err(("trap never ran".into(), "a delivered signal was still waiting when the shell exited".into()));
+    }
+    if in_trap {
+        return Err(("trap action did not finish".into(), String::new()));
+    }
+    Ok(traps_run)
+}
+
+pub fn run_b(ctx: &Ctx) {
+    let quick = ctx.quick();
+    let nscripts = if quick { 300 } else { 5000 };
+    let seed = ctx.seed;
+    ctx.par_for(
+        nscripts,
+        |i| {
+            let mut rng = Rng::new(seed.wrapping_mul(0xC11B).wrapping_add(i as u64));
+            let script = gen_script(&mut rng);
+            let base_out = run_with_injection(&script, Strategy::Fifo, Inject::None);
+            ctx.eval();
+            let base = main_ordinary(&base_out.events);
+            if base_out.end != vsh::End::Done || base.len() < 3 {
+                ctx.violation("B:baseline", format!("baseline run failed: {:?}\nscript:\n{script}\n{}", base_out.end, base_out.err()));
+                return;
+            }
+            let steps = base_out.steps;
+            let mut injections: Vec<(Strategy, Inject)> = Vec::new();
+            // systematic: one delivery at every scheduler step of the FIFO run
+            for s in 0..steps.min(if quick { 40 } else { 200 }) {
+                injections.push((Strategy::Fifo, Inject::At(s, None)));
+            }
+            // two deliveries
+            for _ in 0..(if quick { 10 } else { 40 }) {
+                let a = rng.below(steps.max(1));
+                let b = rng.below(steps.max(1));
+                injections.push((Strategy::Fifo, Inject::At(a, Some(b))));
+            }
+            // random deliveries under random preempting schedules (steps = also every preemption point)
+            for _ in 0..(if quick { 25 } else { 100 }) {
+                injections.push((
+                    Strategy::Random {
+                        seed: rng.next(),
+                        preempt_pct: *rng.pick(&[0, 30, 80]),
+                        max_preempt: 500,
+                    },
+                    Inject::Random(*rng.pick(&[3, 10, 30, 60]), rng.next()),
+                ));
+            }
+            let mut total_traps = 0i64;
+            let mut total_inj = 0i64;
+            for (st, inj) in injections {
+                let out = run_with_injection(&script, st.clone(), inj);
+                ctx.eval();
+                let ninj = out.events.iter().filter(|e| e.kind == "inject").count();
+                total_inj += ninj as i64;
+                match check_timeline(&base, &base_out.events, &out) {
+                    Ok(n) => {
+                        total_traps += n as i64;
+                        if ninj > 0 {
+                            ctx.nontrivial(crate::util::fnv_str(&format!("{script}{:?}", out.events.iter().map(|e| (e.kind, e.pid, e.args.first().cloned())).collect::<Vec<_>>())));
+                        }
+                    }
+                    Err((sig, why)) => {
+                        let tl: Vec<String> = out
+                            .events
+                            .iter()
+                            .map(|e| if e.kind == "inject" { "<<USR1>>".to_string() } else { format!("{}:{}[$?={}]", e.pid, e.args.first().cloned().unwrap_or_default(), e.status) })
+                            .collect();
+                        ctx.violation(
+                            format!("B:{sig}"),
+                            format!("{why}\nscript:\n{script}\nschedule {st:?}, injection {inj:?}\ntimeline (pid:probe, <<USR1>> = delivery from outside): {}\nstderr:\n{}", tl.join(" "), out.err()),
+                        );
+                        break;
+                    }
+                }
+            }
+            ctx.count("B_deliveries_injected", total_inj);
+            ctx.count("B_trap_actions_observed", total_traps);
+            if i % (nscripts / 4).max(1) == 0 {
+                ctx.sample(J::obj(vec![("part", J::s("B: script with injected deliveries")), ("script", J::s(script))]));
+            }
+        },
+        |i, msg| {
+            ctx.violation(
+                if crate::util::panic_in_repo(&msg) { format!("B:panic:{}", msg.split(": ").next().unwrap_or("")) } else { "harness-panic".into() },
+                format!("script {i}: {msg}"),
+            )
+        },
+    );
+    ctx.count("B_scripts", nscripts as i64);
+}
